@@ -28,6 +28,14 @@ theorem C20_FailSoft_quality_table : ∀ p ∈ qualitySites, guardedAll p.1 p.2 
 current source (`gel_observe`, `gel_tick`, `write_snapshot` inside `apply_changes`, health check). -/
 theorem C20_observed_unguarded : ∀ s ∈ observedUnguarded, guardOf s = false := by decide
 
+/-- The store hooks the snapshot writer and the boot loader call (`store.export_state()`, `store.import_state()`)
+are protected inside `_export_store_for_snapshot` / `_import_store_from_snapshot`.  Not in C20's own list (store
+robustness is C04's clause); checked here because `write_snapshot`'s body is a bare call in `apply_changes`, so an
+unprotected hook aborts the turn after the batch was applied — the fault-injection stream exercises both. -/
+theorem C20_store_hooks_guarded :
+    guardedAll .export_store .store_export_state = true ∧ guardedAll .import_store .store_import_state = true := by
+  decide
+
 /-- …so a failure there does abort the modelled turn (witness). -/
 def envOk : Env :=
   { bootLoad := .ok none, t1 := fun _ => .ok ⟨1, some 1, some 1, some 1⟩, t2 := fun _ => .ok ⟨2, some 1, some 1, 1⟩,
